@@ -185,7 +185,14 @@ def scenario(exe, shim, root, seed, stats):
                 before_i = infos[pos]
                 ai = after.info.get(pos)
                 ai = None if ai is None else (ai[1], (2 if ai[2] else 0) | (4 if ai[3] else 0) | (8 if ai[4] else 0))
-                if before_i is None or pos in pending:
+                if before_i is None:
+                    continue
+                if pos in pending:
+                    # deleted or pending blocks: the parity of the stripe is not expected to match, and nothing scrub finds
+                    # there (short of a silent error in a synced block of ANOTHER file) is a reason to mark it bad
+                    stats['pending_judged'] = stats.get('pending_judged', 0) + 1
+                    if ai is not None and (ai[1] & 2) and not (before_i[1] & 2) and both_expect.get(pos) != 'bad':
+                        problem = 'stripe %d holds deleted or pending blocks (its parity is not yet up to date): scrub marked it bad (info before %s, after %s, selected=%s)' % (pos, before_i, ai, sel[pos]); break
                     continue
                 if pos in unsynced:
                     stats['unsynced_stripes'] = stats.get('unsynced_stripes', 0) + 1
